@@ -105,7 +105,7 @@ func (h *harness) checkSeq(im *Impl, in []byte) (class uint32, ok bool) {
 		if kind == decOK {
 			src := im.Src(r)
 			if err != nil || !r.Ok() || !same || len(src) != len(in)-n || (len(src) > 0 && &src[0] != &in[n]) {
-				h.fail("C17:"+im.Name+":Reader."+method+":ok", fmt.Sprintf("Reader{% x}.%s: wrong value=%v, Complete()=%v, %d bytes left (want %d)", in, method, !same, err, len(src), len(in)-n), mk())
+				h.fail("C17:"+im.Name+":Reader."+method+":ok", fmt.Sprintf("Reader{% x}.%s: value matches reference=%v, Complete()=%v, %d bytes left unread (want %d)", in, method, same, err, len(src), len(in)-n), mk())
 				ok = false
 			}
 		} else if err == nil || r.Ok() {
